@@ -91,13 +91,42 @@ struct Ledger {
     in_flight: usize,
 }
 
+/// What the allocator charges for one block: its size, or size + alignment (today's policy).
+/// Probed once on a scratch VM, so that the ledger does not depend on which of the two the crate
+/// uses - only on the policy being the same for every block, charge and refund.
+fn charge_includes_align() -> bool {
+    static POLICY: std::sync::OnceLock<bool> = std::sync::OnceLock::new();
+    *POLICY.get_or_init(|| {
+        verif::reset();
+        let seen: Rc<RefCell<Option<(usize, usize, usize)>>> = Rc::new(RefCell::new(None));
+        let s2 = seen.clone();
+        verif::set_on_alloc(Some(Box::new(move |ev| {
+            if matches!(ev.kind, AllocEventKind::Alloc) && s2.borrow().is_none() {
+                *s2.borrow_mut() = Some((ev.size, ev.align, ev.allocated_after));
+            }
+        })));
+        let mut vm: Vm<()> = Vm::new(()).unwrap();
+        let _ = vm.init_string("probe");
+        drop(vm);
+        verif::set_on_alloc(None);
+        verif::reset();
+        let got = *seen.borrow();
+        match got {
+            Some((size, _, after)) if after == size => false,
+            Some((size, align, after)) if after == size + align => true,
+            other => cvx_core::engine::machinery_error(&format!("cannot determine the allocator's charging policy from the first allocation: {other:?}")),
+        }
+    })
+}
+
 fn install_ledger() -> Rc<RefCell<Ledger>> {
+    let with_align = charge_includes_align();
     let ledger = Rc::new(RefCell::new(Ledger::default()));
     let l2 = ledger.clone();
     verif::set_on_alloc(Some(Box::new(move |ev| {
         let mut l = l2.borrow_mut();
         l.events += 1;
-        let charge = ev.size + ev.align;
+        let charge = if with_align { ev.size + ev.align } else { ev.size };
         let mut pending: Vec<(String, String)> = Vec::new();
         let mut err = |k: &str, w: String| pending.push((k.to_string(), w));
         match ev.kind {
@@ -139,7 +168,7 @@ fn install_ledger() -> Rc<RefCell<Ledger>> {
                         if (s_, a) != (ev.size, ev.align) {
                             err("dealloc/layout", format!("block allocated with ({s_},{a}) released with ({},{})", ev.size, ev.align));
                         }
-                        l.sum -= s_ + a;
+                        l.sum -= if with_align { s_ + a } else { s_ };
                     }
                     None => err("dealloc/unknown-pointer", "release of a pointer that is not outstanding".to_string()),
                 }
